@@ -236,21 +236,37 @@ func c11Judge(keyOps []c11Op, valKey map[int64]string, f c11Op) (kind, what stri
 		}
 		srcRet = src.Ret // c11Open for a set with unknown outcome: cannot be called overwritten
 	}
+	// the overwriting set that returned last before the fetch began
+	var over *c11Op
 	for i := range keyOps {
 		o := &keyOps[i]
 		if o.Kind != "set" || !o.OK || o.Val == f.Val {
 			continue
 		}
-		if o.Call > srcRet && o.Ret < f.Call {
-			got := fmt.Sprint(f.Val)
-			if f.Val == -1 {
-				got = "-1 (no cursor)"
-			}
-			return "stale", fmt.Sprintf("fetch of %s [%s, client %d, seq %d] returned %s although SetCursor(%d) [seq %d, phase %s] was called after that value was stored and was acknowledged %.3f ms before the fetch began",
-				f.Key, f.Phase, f.Client, f.Seq, got, o.Val, o.Seq, o.Phase, float64(f.Call-o.Ret)/1e6)
+		if o.Call > srcRet && o.Ret < f.Call && (over == nil || o.Ret > over.Ret) {
+			over = o
 		}
 	}
-	return "", ""
+	if over == nil {
+		return "", ""
+	}
+	got := fmt.Sprint(f.Val)
+	if f.Val == -1 {
+		got = "-1 (no cursor)"
+	}
+	what = fmt.Sprintf("fetch of %s [%s, client %d, seq %d] returned %s although SetCursor(%d) [seq %d, phase %s] was called after that value was stored and was acknowledged %.3f ms before the fetch began",
+		f.Key, f.Phase, f.Client, f.Seq, got, over.Val, over.Seq, over.Phase, float64(f.Call-over.Ret)/1e6)
+	// History shape "cache refilled by a fetch that raced the set": an earlier
+	// fetch of the key overlapped the overwriting set, returned the old value
+	// (legal for that fetch) and finished after the set was called; the stale
+	// value is what that fetch put back into the cache.
+	for i := range keyOps {
+		o := &keyOps[i]
+		if o.Kind == "fetch" && o.OK && o.Val == f.Val && o.Seq != f.Seq && o.Call < over.Ret && o.Ret > over.Call && o.Ret <= f.Ret {
+			return "stale-refill", what + fmt.Sprintf("; an earlier fetch [seq %d, client %d] overlapped that SetCursor, returned the old value and returned %.3f ms after the set did", o.Seq, o.Client, float64(o.Ret-over.Ret)/1e6)
+		}
+	}
+	return "stale", what
 }
 
 func c11Index(ops []c11Op) (byKey map[string][]c11Op, valKey map[int64]string) {
@@ -276,6 +292,13 @@ func c11Context(phase string) string {
 }
 
 func (e *c11Env) fingerprint(kind, phase string) string {
+	if kind == "stale-refill" && !e.cfg.CacheOff {
+		// one defect, one fingerprint, wherever the stale value is seen later
+		return "C11:stale-cache-refilled-by-fetch-racing-a-set"
+	}
+	if kind == "stale-refill" {
+		kind = "stale"
+	}
 	fp := "C11:" + kind + "-" + c11Context(phase)
 	if e.cfg.CacheOff {
 		fp += ":cache-off"
